@@ -112,7 +112,7 @@ type Finding struct {
 type Result struct {
 	Pair         Pair      `json:"pair"`
 	Calls        int       `json:"calls"`
-	CrashStates  int       `json:"crash_states"`   // crash states judged (death before each call, and after the last)
+	CrashStates  int       `json:"crash_states"`    // crash states judged (death before each call, and after the last)
 	CrashRecover int       `json:"crash_recovered"` // of those, distinct directory contents actually reopened (equal contents share the verdict)
 	FailRuns     int       `json:"fail_runs"`
 	LintCalls    int       `json:"lint_calls"`
@@ -163,13 +163,13 @@ func fstracePath() string { return filepath.Join(kernel.VerifDir, "build", "fstr
 
 type runOut struct {
 	otherCalls []string
-	calls  []Call
-	others int
-	rep    *Report
-	exit   int
-	start  bool
-	end    bool
-	stderr string
+	calls      []Call
+	others     int
+	rep        *Report
+	exit       int
+	start      bool
+	end        bool
+	stderr     string
 }
 
 // traced runs the victim on dir under the tracer.
@@ -304,7 +304,9 @@ func prepareExpect(p Pair, pre *Pre) (vop string, e *expect, err error) {
 	}
 	m0 := pre.M.Clone()
 	vop = p.Op
-	bad := func() (string, *expect, error) { return "", nil, fmt.Errorf("operation %s is not enabled in this pre-state", p.Op) }
+	bad := func() (string, *expect, error) {
+		return "", nil, fmt.Errorf("operation %s is not enabled in this pre-state", p.Op)
+	}
 	switch f[0] {
 	case "Recreate":
 		e.create = true
@@ -511,6 +513,17 @@ func RunJob(job *Job, verbose bool) (res *Result) {
 	case "pair":
 		// the state the fault-free run leaves must be the complete new state (also validates the oracle)
 		if v := e.check(refDir, "new", &x.st); v != nil {
+			// Without any fault the directory the operation leaves is not the complete new state.  If it is not even an
+			// acceptable crash state (process death right after the operation returned) that is a finding of its own
+			// and the rest of the pair is skipped; otherwise the model and the code disagree (E-A's business).
+			if err := x.crashOne(n); err != nil {
+				return herr("%v", err)
+			}
+			if len(res.Findings) > 0 {
+				f := &res.Findings[len(res.Findings)-1]
+				f.What += " - NO fault injected: the operation itself leaves this state"
+				return res
+			}
 			return herr("oracle rejects the state left by the fault-free reference run: %s: %s", v.oracle, v.detail)
 		}
 		if !job.C10 {
